@@ -15,6 +15,9 @@ for pid, c in sorted(P.PROPS.items()):
             if "sources" in c:
                 vbuild.build_harness(c["name"], c["sources"], fv[0], fv[1], extra_cflags=c.get("cflags", ()),
                                      extra_ldflags=c.get("ldflags", ()), libs=c.get("libs", ()))
+    if "fuzz" in c:
+        fz = c["fuzz"]
+        vbuild.build_harness(fz["name"], fz["sources"], "fuzz", "native", extra_cflags=fz.get("cflags", ()), libs=fz.get("libs", ()))
     if "setup" in c:
         c["setup"]()
     print("[setup] %s ready (%.0fs)" % (pid, time.time() - t0), flush=True)
